@@ -91,6 +91,8 @@ fam("cmt-words", "    ! ", " ", "the quick brown fox", " jumps over the lazy dog
 fam("cmt-punct", "! ", " ", "see.section,4.2.1.of.the.guide", " for details. Done, really.")
 fam("cmt-noblank-start", "!", ".", "no.blank.after.bang", " then words follow here")
 fam("cmt-cont-marker", "!& ", " ", "already a continued", " comment of the previous line")
+fam("cmt-cond-comp", "    !$ ", " + ", "num() ! + 1", " + tail_a + tail_b + tail_c")
+fam("cmt-banner", "!$$$ ", " ", "-- 's' & t --", " $$$ the end of the banner")
 fam("cmt-code-like", "      ! ", " ", "call foo('x', &", " ! not code")
 # statements and directives with a trailing comment
 fam("trail-assign", "    total = ", " + ", "last ! sum of all the", " parts that were computed")
@@ -177,6 +179,23 @@ def fixed_texts(limit):
     add("outside-omp", ["!$OMPPARALLELDO" + "X" * L])
     add("outside-cmt-rule", ["  !" + "-" * (L + 3)])
     add("cmt-one-long-word", ["! see " + "h" * (L + 2) + " for details"])
+    # comment-class lines by their second character: `!$` sentinels that are no
+    # OpenMP/OpenACC directive (conditional compilation, serialbox, banners)
+    # are comments; directives in both cases and with leading blanks
+    for i, start in enumerate(["!$ ", "    !$ ", "  !$ser ", "!$$$ ", "!! ", "    !!$ ",
+                               "!'", "  !\"", "!$omx ", "!$thread_x = ", "!$$omp ",
+                               "!&", "!$& ", "!#", "!-- "]):
+        tag = f"bang-{i}"
+        add(tag + "-words", [start + filler(L - 6, " ", i) + "it's the \"end\" & tail = a + b"])
+        add(tag + "-code", [start + "scratch(n) = " + filler(L - 10, " + ", i + 2) + "zz_last"])
+        add(tag + "-far", [start + ident(9, i) + " " + "w" * (L + 2) + " two more words"])
+        add(tag + "-noblank", [start.rstrip() + "x" * (L + 3)])
+    for i, start in enumerate(["!$Omp ", "   !$acc ", "!$ACC ", "      !$OMP ", "!$oMP ", " !$aCc "]):
+        tag = f"sent-{i}"
+        add(tag + "-clauses", [start + "parallel loop private(" + filler(L - 12, ", ", i)
+                               + "zlast) collapse(2)"])
+        add(tag + "-blanks", [start + "target data " + filler(L, " ", i + 1) + "map(to: a)"])
+        add(tag + "-far", [start + "parallel " + "w" * (L + 2) + " default(shared)"])
     add("blank-long", [" " * (L + 4)])
     add("many-blanks", ["    x = a +" + " " * (L - 8) + "b + c"])
     return res
